@@ -89,7 +89,7 @@ def execute(case, script=None):
     _r.seed(f"global:{case.get('verif_seed')}:{case.get('index')}")
     view = MDPView(case['spec'])
     ctx = RunCtx(PROP, view)
-    ctx.declare_probes('plan_option_subclass_with_exits', 'base_model_with_warm_caches', 'fresh_model_after_other_model', 'rerun_after_abort', 'aborts_delivered', 'nested_run', 'second_derived_mdp_alive', 'second_planned_option_alive', 'option_raised_must', 'option_returned_must', 'boundary_raised', 'start_terminal',
+    ctx.declare_probes('second_option_with_shorter_limit', 'plan_option_subclass_with_exits', 'base_model_with_warm_caches', 'fresh_model_after_other_model', 'rerun_after_abort', 'aborts_delivered', 'nested_run', 'second_derived_mdp_alive', 'second_planned_option_alive', 'option_raised_must', 'option_returned_must', 'boundary_raised', 'start_terminal',
                        'smdp_call_raised', 'smdp_dist_checked', 'primitive_checked', 'static_override_sets', 'plan_option',
                        'subtask_plan_checked', 'f7_before', 'f7_boundary', 'f7_after', 'cross_call_checked', 'smdp_actions_asked', 'option_run_longer_than_330_steps')
     sched = make_scheduler(case, script, ctx)
@@ -323,8 +323,27 @@ def _execute(view, cfg, ctx, sched):
 
     # ------------------------------------------------------------ semi-MDP
     nsim = cfg['nsim']
-    smdp = sm.SemiMarkovDecisionProcess(mdp=mdp, options=[o], n_option_simulations=nsim, seed=cfg['seed'],
+    opts = [o]
+    if (cfg['max_steps'] + view.n + nsim) % 3 == 0:
+        # a second option with its own (shorter) step limit lives in the same semi-MDP and is asked about first
+        o_short = Opt(1 + (view.n + nsim) % 3)
+        o_short.name = 'short-' + str(cfg['optname'])
+        opts = [o, o_short]
+        ctx.probe('second_option_with_shorter_limit')
+    smdp = sm.SemiMarkovDecisionProcess(mdp=mdp, options=opts, n_option_simulations=nsim, seed=cfg['seed'],
                                         include_mdp_actions=bool(cfg.get('include_mdp_actions')))
+    if len(opts) > 1:
+        try:
+            with patched_random([sm], RandomProxy(sched)):
+                smdp.next_state_transit_time_reward_dist(sk[start], o_short)
+        except AlgorithmException:
+            pass
+        except (Violation, Inconclusive):
+            raise
+        except Exception as e:
+            raise Violation('exception', f"semi-MDP query for the second option raised {type(e).__name__}: {e}")
+        calls.clear()
+        inner_runs.clear()
 
     def ask_actions(tag):
         # the semi-MDP's action set at a state: the base actions (when included) followed by the options available there;
@@ -335,7 +354,7 @@ def _execute(view, cfg, ctx, sched):
             raise
         except Exception as e:
             raise Violation('exception', f"{tag}: SemiMarkovDecisionProcess.actions raised {type(e).__name__}: {e}")
-        exp = ([ak[a] for a in view.A[start]] if cfg.get('include_mdp_actions') else []) + [o]
+        exp = ([ak[a] for a in view.A[start]] if cfg.get('include_mdp_actions') else []) + opts
         ctx.check(len(got) == len(exp) and all((x is y) or (not isinstance(y, Opt) and x == y) for x, y in zip(got, exp)), 'semimdp-actions',
                   lambda: f"{tag}: semi-MDP actions at {start} are {got}, expected the base actions {view.A[start] if cfg.get('include_mdp_actions') else []} then the option")
         base = list(mdp.actions(sk[start]))
